@@ -14,21 +14,21 @@ PROP_ORACLES = {
     'C04': ['reader', 'writer', 'tree.memory', 'tree.physical', 'union.overlay', 'transfer', 'handles'],
     'C05': ['tree.memory', 'tree.altroot', 'tree.overlay', 'tree.physical', 'union.overlay', 'hostile.physical'],
     'C06': ['paths'],
-    'C07': ['tree.altroot', 'composite.altroot', 'tree.physical', 'transfer'],
+    'C07': ['tree.altroot', 'composite.altroot', 'tree.physical', 'transfer', 'paths'],
     'C08': ['overlay', 'faults'],
     'C09': ['tree.overlay', 'union.overlay', 'overlay'],
     'C10': ['overlay', 'union.overlay'],
     'C11': ['composite.memory', 'composite.altroot', 'composite.physical', 'transfer', 'copydir'],
     'C12': ['paths', 'tree.memory', 'tree.altroot'],
-    'C13': ['paths', 'reader', 'writer', 'tree.memory', 'tree.altroot', 'tree.overlay', 'tree.physical', 'union.overlay', 'overlay', 'transfer', 'handles', 'hostile.physical', 'times', 'adiff:hostile', 'adiff:reader', 'adiff:schedule', 'adiff:steps.memory'],
+    'C13': ['paths', 'reader', 'writer', 'tree.memory', 'tree.altroot', 'tree.overlay', 'tree.physical', 'union.overlay', 'overlay', 'transfer', 'handles', 'hostile.physical', 'times', 'embedded', 'adiff:hostile', 'adiff:reader', 'adiff:schedule', 'adiff:steps.memory'],
     'C14': ['reader', 'writer'],
     'C15': ['adiff:steps.memory', 'adiff:steps.altroot', 'adiff:steps.overlay', 'adiff:steps.physical', 'adiff:reader', 'adiff:schedule', 'adiff:hostile'],
-    'C18': [],
+    'C18': ['embedded'],
     'C19': ['times'],
     'C20': ['faults', 'composite.memory', 'transfer', 'copydir'],
 }
 BOUNDS = {
-    'paths': 'all join arguments over {/ . a é} up to length 5 (deep: 6) x 5 bases, plus parent/filename/extension/root of every result',
+    'paths': 'all join arguments over {/ . a é blank} up to length 5 (deep: 6) x 5 bases, plus parent/filename/extension/root of every result',
     'reader': 'contents of length 0,1,3 x all scripts of 2 (deep: 3) read/seek calls from 17 operations incl. extreme offsets',
     'writer': 'create/append sessions x all scripts of 3 (deep: 4) write/seek/flush calls from 9 operations',
     'tree.memory': 'all sequences of 2 (deep: 3) operations (5 primitives plus move_file / copy_file to a fixed destination) over the 11-path universe (incl. prefix siblings a/ab/a.b, a multi-byte directory with a child, a dot-file, a name containing a backslash) on MemoryFS, every observation compared with the abstract tree after every step',
@@ -38,10 +38,11 @@ BOUNDS = {
     'composite.altroot': 'sequences of 2 operations incl. create_dir_all / remove_dir_all on AltrootFS',
     'tree.physical': 'same sequences (length 2) on PhysicalFS over a fresh temporary directory, plus: nothing next to the root directory changes',
     'composite.physical': 'sequences of 2 operations incl. create_dir_all / remove_dir_all on PhysicalFS',
-    'union.overlay': 'OverlayFS over three layers with pre-populated lower layers (shadowed file, split directory) compared with ONE plain tree initialised to the union, all sequences of 2 (deep: 3) operations outside the input classes of the known findings',
+    'union.overlay': 'OverlayFS over three layers with pre-populated lower layers (shadowed file, split directory, a 20000-byte file in the bottom layer) compared with ONE plain tree initialised to the union, all sequences of 2 (deep: 3) operations outside the input classes of the known findings',
     'overlay': 'all sequences of 1 (deep: 2) overlay operations (13 kinds x 5 paths) over 2 and 3 layers with pre-populated lower layers: lower layers unchanged, observers change nothing, bookkeeping hidden',
     'copydir': 'copy_dir / move_dir of 3 source trees (incl. names repeating the source directory name, empty and nested directories, binary and dot files) x same/other filesystem x existing destination: structure, bytes and returned count',
     'faults': '11 scenarios (create_dir_all, remove_dir_all, copy/move_file, copy/move_dir, walk_dir, read_to_string, altroot, overlay with faulty upper / faulty lower layer) x every position k of a failing underlying call: never Ok with a partial or wrong effect, never a panic, lower layers untouched',
+    'embedded': 'EmbeddedFS over the fixture folder replay/embed (nested, dotted, multi-byte, prefix-sharing names, an empty file) against PhysicalFS on the same folder: for every embedded file and implied directory, the root, and for each an extension, a prefix, a sibling and a path below it (65 paths): existence, type, length, bytes, listings, walk; every mutating call is refused as not-supported; nothing changes',
     'times': 'set_creation/modification/access_time: 3 fields x 3 fields (ordered pairs) x 7 instants (epoch, sub-second, before the epoch, far future) on a file, a directory and the root, on memory, altroot, overlay (upper-layer entries), physical and altroot over physical; plus append sessions (creation time kept, also when set while the handle is open)',
     'handles': '6 scenarios of read / write handles that outlive their file (removed, ancestor removed, re-created) on memory, altroot, overlay: no panic, filesystem usable afterwards',
     'hostile.physical': '14 operations on every entry of a directory holding a dangling symlink, symlinks to a directory and to a file and a non-UTF-8 name: no panic; metadata type agrees with listability',
